@@ -85,10 +85,11 @@ an unknown closure, `fold`, `find_any`, a `for_each` that pushes into a shared v
 `rayon::join`, … is emitted as `Terminal.other _` and breaks this `decide`. -/
 theorem generated_sites_allowed : ∀ s ∈ Generated.sites, s.terminal ∈ allowed := by decide
 
-/-- The only RNG expressions that are compiled in under the `parallel` feature, or that draw
-ambient entropy in library code, are in Hyrax `commit` (`rand::thread_rng()` for the row blinders);
-the property excludes provers that do not draw all randomness from the caller. -/
-theorem generated_rng_sites : Generated.rngSites.map (·.file) = ["hyrax/mod.rs"] := by decide
+/-- No RNG expression is compiled in under the `parallel` feature and no library code draws ambient
+entropy (`thread_rng`, `OsRng`, `from_entropy`, …): every random draw comes from the caller's RNG.
+(The original tree had one such site, `rand::thread_rng()` in Hyrax `commit`; it was repaired by
+`fix:` 661f8e6, see DESIGN §11.3 D18.  A new site anywhere breaks this obligation.) -/
+theorem generated_rng_sites : Generated.rngSites = [] := by decide
 
 /-- Every item gated on the feature is either a `use rayon::…` import or lies in Hyrax
 (`hyrax/mod.rs`: the caller-RNG / thread-RNG alternative of `commit`); no compound predicates. -/
